@@ -1337,6 +1337,18 @@ theorem stored_is_admitted (k : Ranges) (e : Envelope) (he : e.isCreate) (gate :
   · cases h
   · exact h
 
+/-- 7 (stored object). submitting the stored pod again (same profiles, same draw; applied profiles simple) stores it
+    unchanged. -/
+theorem handle_readmission_idempotent (k : Ranges) (e : Envelope) (he : e.isCreate) (gate : Bool) (rand : Int) (ps : List Profile) (p p' : Pod)
+    (hs : AppliedSimple rand (ps.filter (·.matched)))
+    (h : handleMutating k e gate rand ps p = some p') : handleMutating k e gate rand ps p' = some p' := by
+  rw [handle_stores_admitted k e he] at h ⊢
+  split at h
+  · cases h
+  · rename_i hf
+    rw [if_neg hf]
+    exact readmission_idempotent k gate rand ps p p' hs h
+
 /-! ### 11. the validating entry point -/
 
 /-- which requests validatingPodFn hands to the validators -/
@@ -1416,6 +1428,11 @@ theorem probability_gate (pr : Profile) (v : Option IntOrStr) (rand : Int) :
     | none => simp [probFields]
     | some x =>
       cases hx : scaledPercent x <;> simp [probFields, hx]
+
+/-- a profile is kept unless one of its selectors evaluates to "no match"; an evaluation error keeps it. -/
+theorem selectors_matched_iff (pr : Profile) (ns obj : SelShape) :
+    (pr.withSelectors ns obj).matched = true ↔ ns ≠ SelShape.differs ∧ obj ≠ SelShape.differs := by
+  cases ns <;> cases obj <;> simp [Profile.withSelectors, selectorKeeps]
 
 /-! ### non-vacuity of 9–12 -/
 
